@@ -60,7 +60,10 @@ func checkC07(c *Ctx) {
 	c.borrow("C10", func() {
 		c.withAlias(map[string]string{"R06.6": "R10.1"}, func() { c.traitTTLRule("R06.6") })
 		c.c10ExpireAt()
-	}, func(o *coreObl) (string, bool) { return "R07.5", o.Rule == "R10.1" || o.Rule == "R10.3" })
+		c.c10Jitter()
+	}, func(o *coreObl) (string, bool) { return "R07.5", o.Rule == "R10.1" || o.Rule == "R10.3" || o.Rule == "R10.2" })
+	// "expired but still retrievable as stale": an expired entry stays until it has been expired for DeleteExpiredAfter (C11 R11.1)
+	c.borrow("C11", func() { c.c11Boundary() }, func(o *coreObl) (string, bool) { return "R07.4", o.Rule == "R11.1" })
 	// the TTL option is installed by WithTTL (innermost wins, also DefaultTTL) and read back by TTL(ctx)
 	c.borrow("C06", func() { c.c06WithTTL(); c.c06Accessors() }, func(o *coreObl) (string, bool) {
 		return "R07.5", o.Rule == "R06.3" || o.Rule == "R06.7" && (o.Construct == "TTL" || o.Construct == "SkipRead")
